@@ -9,7 +9,7 @@ import nacl.bindings as nb
 from ..prng import Rng, mix
 from ..seams import CLOCK, F, T, AMHLmod, reset_world
 from ..seams import LIB_ERRORS
-from ..core import real
+from ..core import real, RealCodeRaised
 from ..oracle import (L, ed_verify, sig_message, base_mult, point_add, pubkey_of_seed,
                       scalar_to_int, int_to_scalar, as_key_arg)
 
@@ -63,6 +63,9 @@ def gen_plan(run_seed, idx, tier):
                        'refund': refund and c == 0,
                        'keys': rng.choice(['bytes', 'bytes', 'bytes', 'object']),
                        'witness_as': rng.choice(['bytes', 'bytes', 'object']),
+                       # claimants may publish sig || 00 where no flag is needed: the
+                       # lock accepts it, and it is what the left neighbour then reads
+                       'publish_flag00': rng.chance(1, 3),
                        'refund_hops': None if rng.chance(1, 2) else
                        sorted(rng.sample(range(8), rng.rng(1, 4))),
                        'timeout': rng.choice([30, 60, 3600]),
@@ -394,9 +397,19 @@ class Sim:
                 z = view[1]
             elif i in ch.claimed:
                 out_w = p.durable.get((c, 'out_witness'))
-                sig = ch.claimed[i][1]
-                z = real('release_left_amhl_lock', T.release_left_amhl_lock,
-                         self.wit_arg(ch, out_w), sig, view[2])
+                # the party hands over the item as it stands on the ledger; where the
+                # library refuses its trailing flag byte, it strips the byte and retries
+                pub = ch.claimed[i][3]
+                try:
+                    z = T.release_left_amhl_lock(self.wit_arg(ch, out_w), pub, view[2])
+                    if len(pub) == 65:
+                        self.run.probe('release_took_65_byte_item')
+                except LIB_ERRORS as e:
+                    if len(pub) != 65:
+                        raise RealCodeRaised('release_left_amhl_lock', e)
+                    self.run.probe('release_refused_65_byte_item')
+                    z = real('release_left_amhl_lock', T.release_left_amhl_lock,
+                             self.wit_arg(ch, out_w), pub[:64], view[2])
                 # A4: exactly sum_{j<i} y_j mod L
                 self.run.check('A4_release_value', scalar_to_int(z) % L == ch.t_int[i - 1],
                                'C18/release/left_scalar_is_not_prefix_sum', detail={'n': ch.n, 'i': i})
@@ -494,6 +507,8 @@ class Sim:
         lock = ch.hops[hop][1]
         flagb = bytes.fromhex(ch.flags) if int(ch.flags, 16) else b''
         item = sig + flagb if len(sig) == 64 else sig
+        if len(item) == 64 and ch.spec.get('publish_flag00') and not damaged:
+            item = sig + b'\x00'
         if kind == 'refund':
             w = sig            # already a witness script
         else:
@@ -555,7 +570,7 @@ class Sim:
             if hop < ch.n - 1:
                 run.check('A5_right_to_left', (hop + 1) in ch.claimed,
                           'C18/history/hop_claimed_before_its_right_neighbour', detail={'hop': hop, 'by': by})
-            ch.claimed[hop] = (self.now, sig[:64], by)
+            ch.claimed[hop] = (self.now, sig[:64], by, item)
             ch.ledger.append((self.now, hop, 'claim'))
             # M extracts the scalar from the publication and the adapter it saw
             w = self.seen_adapters.get((c, hop))
